@@ -17,7 +17,7 @@ func iterOwner(p *Prog, it *types.Named) (string, *types.Named) {
 		f := st.Field(i)
 		if _, isPtr := types.Unalias(f.Type()).(*types.Pointer); isPtr {
 			if n := namedOf(f.Type()); n != nil && p.T.IsContainer(n) {
-				return f.Name(), n
+				return fieldN(it, i), n
 			}
 		}
 	}
@@ -30,7 +30,7 @@ func wrappedIter(p *Prog, it *types.Named) (string, *types.Named) {
 	for i := 0; i < st.NumFields(); i++ {
 		f := st.Field(i)
 		if n := namedOf(f.Type()); n != nil && p.T.IsIterator(n) {
-			return f.Name(), n
+			return fieldN(it, i), n
 		}
 	}
 	return "", nil
@@ -157,6 +157,55 @@ func cursorFactsOf(g *GC, nstores int) cursorFacts {
 		}
 		if a.Op == "!" && isRangePred(a.Args[0], nstores) {
 			f.newOut = true
+		}
+		// the same facts written with offsets (`index > size-1`, `index+1 <= size`, …): compare as linear forms "… <= 0"
+		if (a.Op == "<" || a.Op == "<=") && len(a.Args) == 2 {
+			var ev func(t *Term) lin
+			ev = func(t *Term) lin {
+				if k, ok := t.constInt(); ok {
+					return linConst(int(k))
+				}
+				switch {
+				case isSize(t):
+					return linAtom("S")
+				case isIndexLoad(t, nstores):
+					return linAtom("N")
+				case isIndexLoad(t, 0):
+					return linAtom("O")
+				case t.Op == "+" && len(t.Args) == 2:
+					return ev(t.Args[0]).add(ev(t.Args[1]), 1)
+				case t.Op == "-" && len(t.Args) == 2:
+					return ev(t.Args[0]).add(ev(t.Args[1]), -1)
+				}
+				return linAtom(noEpoch(t))
+			}
+			form := ev(a.Args[0]).add(ev(a.Args[1]), -1)
+			if a.Op == "<" {
+				form = form.add(linConst(1), 1)
+			}
+			N, O, S, one := linAtom("N"), linAtom("O"), linAtom("S"), linConst(1)
+			zero := linConst(0)
+			switch form.String() {
+			case N.add(S, -1).add(one, 1).String(): // N - S + 1 <= 0
+				f.newLtSize = true
+			case zero.add(N, -1).String(): // -N <= 0
+				f.newGe0 = true
+			case N.add(one, 1).String(), S.add(N, -1).String(): // N + 1 <= 0, S - N <= 0
+				f.newOut = true
+			}
+			if nstores == 0 {
+				O = N
+			}
+			switch form.String() {
+			case O.add(S, -1).add(one, 1).String():
+				f.oldLtSize = true
+			case S.add(O, -1).String():
+				f.oldGeSize = true
+			case zero.add(O, -1).String():
+				f.oldGe0 = true
+			case O.add(one, 1).String():
+				f.oldLt0 = true
+			}
 		}
 	}
 	return f
@@ -316,6 +365,10 @@ func ruleR14(c *Ctx) *RuleResult {
 					inRange, outRange := f.newLtSize && f.newGe0, f.newOut
 					switch {
 					case isRangePred(res, n):
+					case res.Op == "<" && len(res.Args) == 2 && isIndexLoad(res.Args[0], n) && isSize(res.Args[1]) && f.newGe0:
+						// `index >= 0 && index < n` written out in the mover itself: this path already knows 0 <= index
+					case res.Op == "<=" && len(res.Args) == 2 && isZeroT(res.Args[0]) && isIndexLoad(res.Args[1], n) && f.newLtSize:
+						// … or already knows index < n
 					case res.Op == "res" && wrapT != nil && strings.HasSuffix(res.Args[0].Leaf, ")."+dir) && hasField(res.Args[0], wrapF):
 						// treeset: result of the wrapped tree iterator
 					case res.String() == "#:true":
